@@ -17,6 +17,8 @@ pub struct Arena {
     align: usize,
     step: usize,
     pub nreloc: u64,
+    /// regions that are PROT_NONE now
+    closed: Vec<bool>,
 }
 
 fn page_round(n: usize) -> usize { (n + 4095) & !4095 }
@@ -32,7 +34,9 @@ impl Arena {
         let rlen = page_round(max_blen + 8 * align + 3 * 64 + 4096);
         let p = unsafe { libc::mmap(core::ptr::null_mut(), rlen * K, libc::PROT_READ | libc::PROT_WRITE, libc::MAP_PRIVATE | libc::MAP_ANONYMOUS | libc::MAP_NORESERVE, -1, 0) };
         assert!(p != libc::MAP_FAILED, "mmap failed");
-        Arena { base: p as *mut u8, rlen, cur: 0, off: 0, blen: max_blen, align, step: 0, nreloc: 0 }
+        // no transparent huge pages: changing the protection of a few small pages inside a huge page splits it every time
+        unsafe { libc::madvise(p, rlen * K, libc::MADV_NOHUGEPAGE); }
+        Arena { base: p as *mut u8, rlen, cur: 0, off: 0, blen: max_blen, align, step: 0, nreloc: 0, closed: vec![false; K] }
     }
     pub fn set_blen(&mut self, blen: usize) { assert!(blen + 8 * self.align + 3 * 64 <= self.rlen); self.blen = blen; }
     fn region(&self, i: usize) -> *mut u8 { unsafe { self.base.add(i * self.rlen) } }
@@ -47,11 +51,12 @@ impl Arena {
     /// up to 32) and always in absolute address; old block poisoned, old region PROT_NONE
     pub fn relocate(&mut self) -> *mut u8 {
         let old = self.block();
-        let mut ni = self.cur + 1;
-        if ni == K {
+        let ni = (self.cur + 1) % K;
+        if self.closed[ni] {
+            // the reserve is used up: everything accessible again with one call
             let rc = unsafe { libc::mprotect(self.base as *mut _, self.rlen * K, libc::PROT_READ | libc::PROT_WRITE) };
             assert!(rc == 0, "mprotect(recycle) failed: errno {}", std::io::Error::last_os_error());
-            ni = 0;
+            for c in self.closed.iter_mut() { *c = false; }
         }
         self.step += 1;
         let period = if self.align <= 32 { 64 / self.align } else { 4 };
@@ -65,6 +70,7 @@ impl Arena {
             let rc = libc::mprotect(self.region(self.cur) as *mut _, self.rlen, libc::PROT_NONE);
             assert!(rc == 0, "mprotect(NONE) failed: {}", std::io::Error::last_os_error());
         }
+        self.closed[self.cur] = true;
         self.cur = ni; self.off = noff; self.nreloc += 1;
         NRELOC.fetch_add(1, Ordering::Relaxed);
         self.block()
